@@ -10,8 +10,9 @@ struct SdoEnv {
     Hash trace; bool nontrivial = false; bool srv1late = false, srv1on = true;
     SdoEnv(const Plan &p, Cov &c, bool vb) : plan(p), cov(c), verbose(vb) {}
     void fail(const std::string &rule, const std::string &det) { v.fail(plan.property + "/" + rule, det, opi); }
-    uint32_t rxid(int srv) const { return (srv == 0 ? 0x600u : 0x640u) + nodeId; }
-    uint32_t txid(int srv) const { return (srv == 0 ? 0x580u : 0x5C0u) + nodeId; }
+    bool parasrv = false;   // the second server's COB-IDs live, by reference, in a reset-communication parameter group (1010h:1): clients follow what 1201h announces
+    uint32_t rxid(int srv) { if (srv == 1 && parasrv) return (w.raw(0, 0x1201, 1) + nodeId) & 0x7FF; return (srv == 0 ? 0x600u : 0x640u) + nodeId; }
+    uint32_t txid(int srv) { if (srv == 1 && parasrv) return (w.raw(0, 0x1201, 2) + nodeId) & 0x7FF; return (srv == 0 ? 0x580u : 0x5C0u) + nodeId; }
     void setup() {
         nodeId = (uint8_t)plan.c("nodeid", 1); if (nodeId < 1 || nodeId > 127) nodeId = 1;
         d.build(plan, nsrv);
@@ -19,7 +20,11 @@ struct SdoEnv {
         srv1late = nsrv > 1 && plan.c("srv1late", 0) != 0; srv1on = !srv1late;
         if (srv1late) for (auto &sp : d.specs) if (sp.idx == 0x1201 && (sp.sub == 1 || sp.sub == 2)) { sp.flags = CO_OBJ_DN__RW; sp.val |= 0x80000000u; }
         NodeCfg cfg; cfg.nodeId = nodeId; cfg.freq = 1000; cfg.tmrNum = 8;
-        w.verbose = verbose; w.build(0, cfg, d.specs); w.init(0); w.start(0);
+        parasrv = nsrv > 1 && !srv1late && plan.c("parasrv", 0) != 0; std::vector<ParaSpec> ps;
+        if (parasrv) { ParaSpec g; g.offset = 0; g.size = 8; g.type = CO_RESET_COM; ps.push_back(g); add_typed(d.specs, T_PARASTORE, 0x1010, 0, CO_OBJ_D___R_, 1); add_typed(d.specs, T_PARASTORE, 0x1010, 1, CO_OBJ_____RW, 0, 0);
+            for (auto &sp : d.specs) if (sp.idx == 0x1201 && (sp.sub == 1 || sp.sub == 2)) { sp.flags = CO_OBJ__N__R_; sp.pgrp = 0; sp.poff = sp.sub == 1 ? 0 : 4; }   /* read-only for SDO clients (no history can legitimately move the server), written by the application through the API */ cov.hit("second-server-cobids-held-in-a-parameter-group"); }
+        w.verbose = verbose; w.build(0, cfg, d.specs, ps, {}, parasrv ? 8 : 0); if (parasrv) memcpy(&w.s[0].nvm[0], w.s[0].paraRam[0], 8);   // NVM as programmed at production
+        w.init(0); w.start(0);
         if (plan.c("oper", 0)) { w.rx(0, Frame(0, 2, {1, 0})); w.canproc(0); }
         if (plan.c("poolfull", 0)) { w.cur = 0; while (COTmrCreate(&w.N(0)->Tmr, 1000000, 0, [](void *) {}, nullptr) >= 0) {} (void)CONodeGetErr(w.N(0)); cov.hit("F15-timer-pool-full"); }   // every timer slot taken by the application
         size_t off = 0; for (auto &s : w.s[0].specs) { size_t n = w.bytes(0, s.idx, s.sub).size(); range.push_back({off, n}); off += n; }
@@ -319,6 +324,12 @@ struct XferRun : SdoEnv {
                 if (srv1late && srv1on && !busy1) { w.cur = 0; int which = (int)(o.arg(0) & 1) + 1; uint32_t id = (which == 1 ? 0x640u : 0x5C0u) + nodeId;
                     CO_ERR e1 = CODictWrLong(&w.N(0)->Dict, CO_DEV(0x1201, (uint8_t)which), id | 0x80000000u), e2 = CODictWrLong(&w.N(0)->Dict, CO_DEV(0x1201, (uint8_t)which), id);
                     if (e1 != CO_ERR_NONE || e2 != CO_ERR_NONE) { fail("enable2/refused", "switching the second SDO server off and on through the API was refused"); return v; } cov.hit("second-server-switched-off-and-on-again"); nontrivial = true; } }
+            else if (o.k == "movesrv") {   // the application moves the (idle) second server to other identifiers through the API - without 'save': after a reset communication the stored ones are back
+                bool busy1 = false; for (int k = 0; k < 2; k++) if (L[k].active && !L[k].s.finished() && L[k].s.srv == 1) busy1 = true;
+                if (parasrv && !busy1) { w.cur = 0; int which = (int)(o.arg(0) & 1) + 1; uint32_t cur = (w.raw(0, 0x1201, (uint8_t)which) + nodeId) & 0x7FF, nw = ((which == 1 ? 0x640u : 0x5C0u) + 0x10u * (uint32_t)(o.arg(1) % 3) + nodeId) & 0x7FF;
+                    CO_ERR e1 = CODictWrLong(&w.N(0)->Dict, CO_DEV(0x1201, (uint8_t)which), cur | 0x80000000u), e2 = CODictWrLong(&w.N(0)->Dict, CO_DEV(0x1201, (uint8_t)which), nw);
+                    if (e1 != CO_ERR_NONE || e2 != CO_ERR_NONE) { fail("enable2/refused", "moving the second SDO server to another identifier through the API was refused"); return v; } cov.hit("second-server-moved-without-save"); nontrivial = true; } }
+            else if (o.k == "savecom") { if (parasrv) { Frame f(0, 8, {0x23, 0x10, 0x10, 1, 0x73, 0x61, 0x76, 0x65}); garbage(0, f); cov.hit("communication-parameters-saved"); } }
             else if (o.k == "g") { Frame f(0, (uint8_t)o.arg(1, 8), o.b); if (o.arg(2, -1) >= 0) { w.s[0].sendFailAfter = (int)o.arg(2); cov.hit("F5-sdo-response-refused-by-driver"); } garbage((int)(o.arg(0) % nsrv), f); w.s[0].sendFailAfter = -1; }
             else if (o.k == "abort") { int srv = (int)(o.arg(0) % nsrv); Frame f(0, 8, {0x80, 0, 0, 0, 0, 0, 0, 0}); garbage(srv, f); }
             else if (o.k == "resetcom") { size_t m = w.mark(); w.rx(0, Frame(0, 2, {(uint8_t)(o.arg(0) ? 129 : 130), 0})); w.canproc(0); L[0].active = L[1].active = false; recovered[0] = recovered[1] = true; bool boot = false; for (auto &fr : w.txSince(m)) boot |= fr.id == 0x700u + nodeId; if (!boot) fail("reset/no-bootup", "no boot-up frame after NMT reset"); cov.hit("reset-communication"); }
@@ -413,19 +424,21 @@ static Plan gen_req(Rng &r, bool thorough) {
 }
 // ---- C05 generator: arbitrary history, then [abort | reset communication], then a clean transfer
 static Plan gen_wedge(Rng &r, bool thorough) {
-    Plan p; gen_cfg(r, p); p.cfg["resetfail"] = 1;
+    Plan p; gen_cfg(r, p); p.cfg["resetfail"] = 1; bool ps = r.chance(1, 6); p.cfg["parasrv"] = ps;
     SdoDict d; d.build(p, 1);
-    int64_t srv = r.below(2);
+    int64_t srv = ps ? 1 : r.below(2);
     int n = (int)r.range(0, thorough ? 120 : 50);
     for (int i = 0; i < n; i++) {
         int c = (int)r.below(10);
         if (c < 6) { Frame f = r.chance(3, 4) ? gen_request(r, d) : sdo_garbage(r, d); p.ops.push_back(Op("g", {r.chance(5, 6) ? srv : (int64_t)r.below(2), (int64_t)f.dlc, r.chance(1, 10) ? (int64_t)r.below(2) : -1}, std::vector<uint8_t>(f.d, f.d + 8))); }
         else if (c < 8) { Op b = gen_begin(r, 0, r.chance(1, 2), thorough); b.a[1] = srv; p.ops.push_back(b); int k = (int)r.range(0, 8); for (int j = 0; j < k; j++) p.ops.push_back(Op("step", {0, r.chance(1, 5) ? (int64_t)r.below(3) : -1})); if (r.chance(1, 2)) { Frame f = sdo_garbage(r, d); p.ops.push_back(Op("g", {srv, 8}, std::vector<uint8_t>(f.d, f.d + 8))); } }
         else if (c == 8 && r.chance(1, 2)) { uint8_t cmd = r.pick<uint8_t>({0xC2, 0xC6, 0xC0, 0x21, 0x23, 0x40, 0xA0}); p.ops.push_back(Op("g", {srv, 8, -1}, {cmd, 0x05, 0x23, 0, 4, 0, 0, 0})); }   // initiate on the entry whose type refuses the rewind
+        else if (c == 8 && ps) p.ops.push_back(r.chance(3, 4) ? Op("movesrv", {(int64_t)r.below(2), (int64_t)r.below(3)}) : Op("savecom"));
         else if (c == 8) p.ops.push_back(Op("tick", {r.range(1, 20)}));
         else { Frame f = sdo_garbage(r, d); p.ops.push_back(Op("g", {(int64_t)r.below(2), (int64_t)f.dlc}, std::vector<uint8_t>(f.d, f.d + 8))); }
     }
-    if (r.chance(2, 3)) p.ops.push_back(Op("abort", {srv})); else p.ops.push_back(Op("resetcom", {(int64_t)r.chance(1, 4)}));
+    if (ps && r.chance(1, 2)) p.ops.push_back(Op("movesrv", {(int64_t)r.below(2), (int64_t)r.range(1, 2)}));
+    if (r.chance(2, 3) && !(ps && r.chance(2, 3))) p.ops.push_back(Op("abort", {srv})); else p.ops.push_back(Op("resetcom", {(int64_t)r.chance(1, 4)}));
     int t = (int)r.range(1, 3);
     for (int i = 0; i < t; i++) {
         // T: a transfer that must succeed: readable/writable plain objects with a length the server has to accept
